@@ -66,6 +66,9 @@ func c12Hist(ic bool, pat string, lines [][]byte) string {
 }
 
 func c12RunHist(f []string) (string, bool) {
+	if res, ok := c12RunLazy(f); ok {
+		return res, true
+	}
 	if f[0] == "hist" {
 		return c12safe(func() string { return c12Hist(f[1] == "1", string(UnHex(f[2])), UnHexList(f[3])) }), true
 	}
@@ -191,6 +194,7 @@ func c12GenHistAll(r *Rand, tier string) []string {
 	for i := 0; i < n; i++ {
 		out = append(out, c12GenHist(r))
 	}
+	out = append(out, c12GenLazy(r, tier)...)
 	if tier == "thorough" {
 		// exhaustive: every ordered PAIR of lines over {a,b,=} up to length 5 for three small patterns:
 		// the second line is matched by an instance that has seen exactly the first
@@ -229,6 +233,9 @@ func c12GenHistAll(r *Rand, tier string) []string {
 // does line i have the (folded) prefix at the column where line i-1's match started, although its own
 // match starts earlier?  (the trigger of a "probe the previous column first" shortcut)
 func c12StatsHist(f []string, st map[string]int) bool {
+	if c12StatsLazy(f, st) {
+		return true
+	}
 	if f[0] != "hist" {
 		return false
 	}
@@ -286,7 +293,7 @@ func c12CorpusHist() []string {
 	h := func(ic int, pat string, lines ...string) string {
 		return fmt.Sprintf("hist %d %s %s", ic, HexS(pat), HexListS(lines))
 	}
-	return []string{
+	return append(c12CorpusLazy(), []string{
 		// the prefix found at column 5, then a line with the prefix at column 0 AND at column 5
 		h(0, "id=%{v};", "xxxxxid=1;", "id=2;id=3;"),
 		h(1, "ID=%{v};", "xxxxxid=1;", "Id=2;iD=3;", "xxxxxID=4;", "id=5;Id=6;"),
@@ -298,5 +305,5 @@ func c12CorpusHist() []string {
 		// ignore-case: the FIRST occurrence in any case, not the first in the pattern's case
 		fmt.Sprintf("dissect 1 %s %s 1", HexS("user=%{u} msg=%{m}"), HexListS([]string{"USER=bob MSG=hello user=x msg=y"})),
 		h(1, "user=%{u} msg=%{m}", "user=a msg=b", "USER=bob MSG=hello user=x msg=y", "user=a msg=b"),
-	}
+	}...)
 }
